@@ -64,6 +64,16 @@ CLAIMED = {
             'skips causally later / unified / non-equating targets and is causally linked; activation posts sigma and applies the inherited rules under the right controlling literal; every flaw is ordered strictly after its '
             'causes; activation events are dispatched on the literal, not the variable. That search finds a justification is not decided.',
             'Trusts C13 (new_conj), C10/C12 (IDL distances) and C14 for the literals used.', 'DESIGN.md 4 C03'),
+    'C01': ('CFG reachability of solver::solve per build configuration (solution gate), must-use-result analysis of every consistency-reporting call of the program, clause-schema and who-may-write rules for asserted facts, routing tables of the exposed values',
+            'Static: in every heuristic / inconsistency-checking / listener configuration (2 quick, +32 thorough) success is only reachable through the inconsistency check after the last decision and an empty agenda; no '
+            'call site in the program drops a reported inconsistency (5 reasoned exceptions); facts are posted exactly as {!ni, fact}; values are read from the theory that owns them. '
+            'That the model values satisfy the constraints rests on C07-C15 and is not decided here.',
+            'Trusts the list of consistency-reporting functions in orv/rules/C01.py (MUST_CHECK).', 'DESIGN.md 4 C01'),
+    'C02': ('control-dependence analysis of every planner-exception throw on a failed consistency call; vector-builder summary of the learnt no-good; gamma-guard clause schemas; ordering facts of conflict analysis',
+            'Static: the problem is declared unsolvable / inconsistent only where a consistency call failed (8 frozen, reasoned sites); the clause learnt from a forced inconsistency choice is exactly {choice} + negated decisions; '
+            'graph pruning clauses carry !gamma and gamma is renewed only when false; theory conflicts are analysed over their own literals after back-jumping to their highest level. '
+            'Soundness of first-UIP analysis and of theory explanations on arbitrary histories is not decided (C07/C09/C10 decide their structural parts).',
+            'The frozen throw sites are named with a reason in orv/rules/C02.py.', 'DESIGN.md 4 C02'),
 }
 
 NOT_YET = {}
